@@ -55,8 +55,8 @@ RULE = (
 ASSUMPTIONS = [
     "parallel='auto' (the 'random-greedy' presets) is resolved to serial "
     "execution inside the harness workers instead of a loky process pool",
-    "a call that does not return within CALL_TIMEOUT_S (normal duration: "
-    "milliseconds) is reported as 'does-not-return' (infinite loops cannot "
+    "a call that does not return within CALL_TIMEOUT_S seconds of process "
+    "CPU time (normal duration: milliseconds) is reported as 'does-not-return' (infinite loops cannot "
     "be detected otherwise)",
     "seeds fixed (0) for randomized finders: the property is about "
     "well-formedness for every network/setting, not every random draw",
@@ -321,30 +321,41 @@ def units(tier, seed):
     return us
 
 
+_HANGS = {}
+
+
 def run_one(res, label, setting, net, fn, want):
     """fn() -> path or tree"""
     tag, inputs, output, sd = net
     n = len(inputs)
+    fam = label.split("[")[0] + "[" + label.split("[")[-1][:12]
+    if _HANGS.get(fam, 0) >= 3:
+        # this finder already failed to return three times in this worker:
+        # the check has failed; do not spend CALL_TIMEOUT_S on every case
+        res.stat("skipped-after-repeated-hangs")
+        return
     res.evals += 1
     if n >= 3:
         res.key((label, str(setting), inputs, output))
     case = {"finder": label, "setting": setting, "inputs": inputs,
             "output": output, "sizes": sd}
     try:
-        signal.signal(signal.SIGALRM, _on_alarm)
-        signal.alarm(CALL_TIMEOUT_S)
+        # CPU-time timer of this process: immune to machine load
+        signal.signal(signal.SIGVTALRM, _on_alarm)
+        signal.setitimer(signal.ITIMER_VIRTUAL, CALL_TIMEOUT_S)
         try:
             out = fn()
         finally:
-            signal.alarm(0)
+            signal.setitimer(signal.ITIMER_VIRTUAL, 0)
         if want == "path":
             bad = check_path(out, n)
         else:
             bad = check_tree(out, inputs, output, n,
                              modulo_labels=(want == "tree~"))
     except DoesNotReturn:
-        bad = [("does-not-return(within %ds; normal: milliseconds)"
-                % CALL_TIMEOUT_S,)]
+        _HANGS[fam] = _HANGS.get(fam, 0) + 1
+        bad = [("does-not-return(within %ds of CPU time; normal: "
+                "milliseconds)" % CALL_TIMEOUT_S,)]
     except Exception as e:
         import traceback
 
